@@ -16,6 +16,11 @@ class Timeout(Exception):
     pass
 
 
+class NoPublish(Timeout):
+    """the server is alive and answering but sent no publishDiagnostics for the notification"""
+    pass
+
+
 def path_to_uri(p):
     from urllib.parse import quote
     return "file://" + quote(p)
@@ -39,6 +44,7 @@ class Client:
         self.cv = threading.Condition(self.lock)
         self.dead = False
         self.timeout = timeout
+        self.diag_timeout = 6.0
         self.reader = threading.Thread(target=self._read_loop, daemon=True)
         self.reader.start()
         res = self.request("initialize", {
@@ -140,15 +146,15 @@ class Client:
                     raise Timeout("log message %r not seen" % text)
                 self.cv.wait(left)
 
-    def wait_diag(self, uri, count, timeout=10):
-        deadline = time.time() + timeout
+    def wait_diag(self, uri, count, timeout=None):
+        deadline = time.time() + (timeout or self.diag_timeout)
         with self.cv:
             while self.diag_count.get(uri, 0) < count:
                 if self.dead:
                     raise ServerDied("server died while diagnostics for %s were awaited" % uri)
                 left = deadline - time.time()
                 if left <= 0:
-                    raise Timeout("no publishDiagnostics #%d for %s" % (count, uri))
+                    raise NoPublish("no publishDiagnostics #%d for %s" % (count, uri))
                 self.cv.wait(left)
             return list(self.diagnostics.get(uri, []))
 
